@@ -20,6 +20,36 @@ def variants(ctx, prog, k):
     return toks, texts
 
 
+def huge_trivia(ctx):
+    """single pieces of trivia of 70 KB .. 1.2 MB (one `//` comment, one block comment, one run of blanks, one run of line breaks)
+    whose END decides what the following text means: the rest of the comment's line belongs to the comment however long the comment is"""
+    from pyab_experiment.utils.wraper_functions import parse_source
+    rng = ctx.rng
+    base_text = 'def e { splitters: u return "a" weighted 1 }'
+    base = common.canon_ast(common.quiet(lambda: parse_source(base_text))[0])
+    sizes = [65535, 65536, 70000, 131072, 249990, 250000, 250010, 262144, 300000] + ([524288, 1000000, 1200000] if ctx.tier == "thorough" else [])
+    for n in sizes:
+        pad = rng.choice([" ", "x", "é", "*", "/", "-"]) * n
+        variants = [
+            ("line-comment", 'def e { splitters: u return "a" weighted 1 //' + pad + ', "b" weighted 1\n}'),
+            ("block-comment", 'def e { splitters: u return "a" weighted 1 /*' + pad.replace("*/", "* ") + ' , "b" weighted 1 */ }'),
+            ("block-comment-lines", 'def e { splitters: u return "a" weighted 1 /*' + ("\n" * n) + '*/ }'),
+            ("blanks", 'def e { splitters: u return "a"' + " " * n + 'weighted 1 }'),
+            ("line-breaks", 'def e { splitters: u' + "\n" * n + 'return "a" weighted 1 }'),
+        ]
+        for kind, text in variants:
+            try:
+                a = common.canon_ast(common.quiet(lambda: parse_source(text))[0])
+            except Exception as ex:  # noqa
+                a = {"e": common.classify_exc(ex)}
+            ctx.case(("huge-trivia", kind, n), True)
+            ctx.count("huge-trivia:" + kind)
+            if a != base:
+                ctx.violation(f"a {kind} of {n} characters changes the experiment: the text with it parses to {json.dumps(a)[:120]}, without it to {json.dumps(base)[:80]}",
+                              {"kind": kind, "length": n, "text_head": text[:80], "text_tail": text[-60:], "impl": a})
+                return
+
+
 def run_batch(ctx, n, with_model=True):
     from pyab_experiment.utils.wraper_functions import parse_source
     from pyab_experiment.experiment_evaluator import ExperimentEvaluator
@@ -103,7 +133,9 @@ def run(ctx):
                          "a corpus of minimal past failures")
     ctx.notes.append("token boundaries are those of the documented token table: `else if` and `not in` are single tokens, so trivia inside them is not between tokens")
     run_batch(ctx, n)
+    huge_trivia(ctx)
 
 
 def search(ctx):
+    huge_trivia(ctx)
     run_batch(ctx, 1500, with_model=False)
